@@ -106,6 +106,16 @@ func (rt *runtime) enterFunctionScope(outer stasher, this Value) *fnStash {
 	return stash
 }
 
+// interrupt runs a function received on the interrupt channel. The function
+// may use the runtime itself (Run, Call); the labels pending for the statement
+// about to be evaluated are kept across that, so that a function which returns
+// normally is invisible to the script.
+func (rt *runtime) interrupt(function func()) {
+	labels := rt.labels
+	defer func() { rt.labels = labels }()
+	function()
+}
+
 func (rt *runtime) putValue(reference referencer, value Value) {
 	name := reference.putValue(value)
 	if name != "" {
